@@ -142,6 +142,25 @@ def pred_tt(X, rank, factors, what="tensor_train"):
     return None
 
 
+def pred_tt_identity(X, factors, calls, what="tensor_train"):
+    """transcription of C09_tt_error_sigma_R: squared error = sum over the SVD calls of the run of the squared
+    singular values that call discarded (S as returned by the backend for the WORKING unfolding, taped)."""
+    n = len(factors)
+    if len(calls) != n - 1:
+        return f"{what}: {len(calls)} SVD calls for {n} factors (expected {n - 1})"
+    Xf = np.asarray(X, dtype=float)
+    err2 = fro(Xf - tt_full(factors)) ** 2
+    disc = 0.0
+    for k, (M, U, S, V) in enumerate(calls):
+        r = factors[k].shape[2]
+        disc += float(np.sum(np.asarray(S, dtype=float)[r:] ** 2))
+    nx2 = fro(Xf) ** 2
+    if abs(err2 - disc) > 1e-9 * nx2 + 1e-7 * max(err2, disc):
+        return (f"{what}: squared error {err2:.9e} differs from the sum of the discarded squared singular values of the "
+                f"working unfoldings {disc:.9e} (TT-SVD error identity)")
+    return None
+
+
 def interleave(X):
     d = X.ndim // 2
     idx = [i for p in zip(range(d), range(d, 2 * d)) for i in p]
@@ -254,7 +273,7 @@ def run_impl(kind, X, rank, extra):
     return st, v, tp.calls
 
 
-def predicate(kind, X, rank, extra, st, v, info):
+def predicate(kind, X, rank, extra, st, v, info, calls=None):
     """message | None for one implementation run (valid requests only)"""
     if st != "ok":
         if info.get("valid", True):
@@ -262,9 +281,16 @@ def predicate(kind, X, rank, extra, st, v, info):
         return None
     try:
         if kind == "tt":
-            return pred_tt(X, rank, v)
+            msg = pred_tt(X, rank, v)
+            if msg is None and calls is not None:
+                msg = pred_tt_identity(X, v, calls)
+            return msg
         if kind == "ttm":
-            return pred_ttm(X, rank, v)
+            msg = pred_ttm(X, rank, v)
+            if msg is None and calls is not None and X.ndim // 2 > 1:
+                merged = [np.asarray(f).reshape(f.shape[0], f.shape[1] * f.shape[2], f.shape[3]) for f in v]
+                msg = pred_tt_identity(interleave(np.asarray(X)), merged, calls, "tensor_train_matrix")
+            return msg
         if kind == "tucker":
             return pred_tucker(X, rank, v[0], v[1])
         if kind == "tr":
@@ -548,6 +574,7 @@ def run(chk):
     # ---- correspondence cases (small) -------------------------------------------------------
     cases, meta = [], []
     resid = []
+    orth = []
     for (kind, X, rank, extra, info) in load_corpus() + list(gen_corr_cases(tier, rng, nrng)):
         if X.size > 40:
             continue
@@ -561,13 +588,15 @@ def run(chk):
         cid = len(cases)
         cases.append(f"({cid}%nat, {kind_lit(kind, extra)}, {qt(X)}, {rank_lit(rank)},\n  {tape_lit(calls)},\n  {outcome_lit(kind, st, v)})")
         meta.append((kind, X, rank, extra, info, st))
-        for (M, U, S, V) in calls:   # measured oracle contract: LAPACK's answer reproduces its query
+        for (M, U, S, V) in calls:   # measured oracle contract: LAPACK's answer reproduces its query, U / Vh are orthonormal
             k = len(S)
             resid.append(float(np.max(np.abs((U[:, :k] * S) @ V[:k, :] - M))) / max(1.0, float(np.max(np.abs(M)))) if M.size else 0.0)
+            if M.size:
+                orth.append(max(float(np.max(np.abs(U[:, :k].T @ U[:, :k] - np.eye(k)))), float(np.max(np.abs(V[:k, :] @ V[:k, :].T - np.eye(k))))))
         nontriv = X.size > 1
         chk.count(key=("corr", kind, X.shape, str(rank), tuple(sorted(extra.items())), info["cls"]), nontrivial=nontriv)
         chk.hist("corr_function", kind); chk.hist("corr_outcome", st); chk.hist("corr_order", X.ndim)
-        msg = predicate(kind, X, rank, extra, st, v, info)
+        msg = predicate(kind, X, rank, extra, st, v, info, calls)
         if msg:
             chk.finding(EP[kind], describe(kind, X, rank, extra, info), msg, "C09_bounds")
         if cid % 41 == 0:
@@ -592,13 +621,14 @@ def run(chk):
                 chk.hist("skipped_timeout", kind)
                 continue
             info = dict(info, valid=True)
-            msg = predicate(kind, X, rank, extra, st, v, info)
+            msg = predicate(kind, X, rank, extra, st, v, info, calls)
             chk.count(key=("pred", kind, X.shape, str(rank), tuple(sorted(extra.items())), info["cls"]), nontrivial=X.size > 1)
             chk.hist("pred_function", kind); chk.hist("pred_order", X.ndim); chk.hist("pred_class", info["cls"])
             if msg:
                 chk.finding(EP[kind], describe(kind, X, rank, extra, info), msg, "C09_bounds")
     if resid:
-        chk.cov["oracle_residuals"] = {"svd_calls_taped": len(resid), "max_relative_residual_U_S_V_minus_M": max(resid)}
+        chk.cov["oracle_residuals"] = {"svd_calls_taped": len(resid), "max_relative_residual_U_S_V_minus_M": max(resid),
+                                       "max_orthonormality_residual_UtU_VVt_minus_I": max(orth) if orth else 0.0}
     chk.cov["exhaustive"] = False
     chk.cov["rule"] = ("correspondence: random tensors of order 2-4 over mode sizes {1,2,3} (<= 24 entries quick / 36 thorough), six value classes "
                        "(generic dyadic, exactly low TT rank, exactly low multilinear rank, rank-deficient, integer, integer low rank), "
@@ -633,6 +663,6 @@ def replay(payload):
     msg = None
     if not finite(st, v, calls):
         msg = "non-finite output or SVD query"
-    msg = msg or predicate(kind, X, rank, extra, st, v, info)
+    msg = msg or predicate(kind, X, rank, extra, st, v, info, calls)
     print("replay:", kind, X.shape, rank, extra, "->", msg or "holds")
     return 1 if msg else 0
